@@ -71,7 +71,17 @@ func (x *c18cert) precedingOK(fn *ssa.Function, fs []Fact, site ssa.Instruction)
 		if res.Len() == 0 || !pfIsErrorType(res.At(res.Len()-1).Type()) {
 			continue
 		}
-		if !p.mustPrecede(site, func(in ssa.Instruction) bool { return in == q.Instr }) {
+		// the step precedes the write when the write can execute after it. (Judged per path: once the
+		// body of a rendering helper is merged into its caller, an early step is no longer on every
+		// CFG path to the write — its failure leaves through the merged error return.)
+		before := false
+		for _, in := range reachableAfter(q.Instr, nil) {
+			if in == site {
+				before = true
+				break
+			}
+		}
+		if !before {
 			continue
 		}
 		if !p.pfFuncContains(callee, func(k Call) bool {
@@ -79,7 +89,7 @@ func (x *c18cert) precedingOK(fn *ssa.Function, fs []Fact, site ssa.Instruction)
 		}) {
 			continue
 		}
-		if !p.errOfCallIsNil(fs, qc) {
+		if !p.errOfCallIsNil(fs, qc) && !p.c18ErrCheckedBefore(qc, site) {
 			x.problems = append(x.problems, fmt.Sprintf("the error of %s (%s) is not known to be nil at %s", calleeName(q.Common), p.IPos(q.Instr), p.IPos(site)))
 		} else {
 			x.notes = append(x.notes, calleeName(q.Common)+" err==nil")
@@ -150,7 +160,7 @@ func (x *c18cert) certified(fn *ssa.Function, fs []Fact, site ssa.Instruction, o
 		}
 		all, n := true, 0
 		for _, rc := range p.returnCases(callee) {
-			if len(rc.Results) == 0 || !p.pfErrMayBeNil(rc.Facts, rc.Results[len(rc.Results)-1]) {
+			if len(rc.Results) == 0 || !p.c18ErrMayBeNil(rc.Facts, rc.Results[len(rc.Results)-1]) {
 				continue
 			}
 			n++
@@ -492,7 +502,7 @@ func c18Enqueue(c *Ctx) {
 	// group/kind mismatch between the element and the watcher type. Judged per path (the body is
 	// small and acyclic), so `continue` guards, wrapped bodies, nested ifs, `&&`/`||` and booleans that
 	// materialise the comparison (De Morgan included) are all the same thing.
-	isGK := func(v ssa.Value, base func(ssa.Value) bool) string {
+	isGK := func(v ssa.Value, base func(ssa.Value) bool, bind *c18bind) string {
 		u, isU := v.(*ssa.UnOp)
 		if !isU {
 			return ""
@@ -502,25 +512,91 @@ func c18Enqueue(c *Ctx) {
 			return ""
 		}
 		n := fieldName(fa.X.Type(), fa.Field)
-		if (n == "Kind" || n == "Group") && p.pfDerives(fa.X, base) {
+		if n != "Kind" && n != "Group" {
+			return ""
+		}
+		// inside an extracted predicate the operands derive from its parameters, which stand for the
+		// arguments of the call in the loop body
+		if p.c18DerivesX(fa.X, bind, 0, func(x ssa.Value, _ *c18bind) bool { return base(x) }) {
 			return n
 		}
 		return ""
 	}
 	fromRecv := func(v ssa.Value) bool { return v == ssa.Value(recv) }
-	isMismatch := func(f Fact) bool {
+	isMismatchIn := func(f Fact, bind *c18bind) bool {
 		bin, isBin := f.Cond.(*ssa.BinOp)
 		if !isBin || !((bin.Op == token.NEQ && f.Pol) || (bin.Op == token.EQL && !f.Pol)) {
 			return false
 		}
-		if n := isGK(bin.X, elem); n != "" && n == isGK(bin.Y, fromRecv) {
+		if n := isGK(bin.X, elem, bind); n != "" && n == isGK(bin.Y, fromRecv, bind) {
 			return true
 		}
-		if n := isGK(bin.Y, elem); n != "" && n == isGK(bin.X, fromRecv) {
+		if n := isGK(bin.Y, elem, bind); n != "" && n == isGK(bin.X, fromRecv, bind) {
 			return true
 		}
 		return false
 	}
+	// a fact about the boolean result of an extracted predicate (left in place as a call) stands for
+	// what the predicate observed: it is a mismatch when every way the predicate can return that
+	// value has observed one
+	var isMismatchAt func(f Fact, bind *c18bind, depth int) bool
+	isMismatchAt = func(f Fact, bind *c18bind, depth int) bool {
+		if isMismatchIn(f, bind) {
+			return true
+		}
+		call, isCall := f.Cond.(*ssa.Call)
+		if !isCall || depth > 2 {
+			return false
+		}
+		h := staticCallee(call.Common())
+		if h == nil || !p.inlinable(h) || h.Signature.Results().Len() != 1 {
+			return false
+		}
+		hpaths, complete := p.c18ReturnPaths(h)
+		if !complete {
+			return false
+		}
+		inner := &c18bind{call: call, outer: bind}
+		n := 0
+		for _, hp := range hpaths {
+			last := hp.blocks[len(hp.blocks)-1]
+			ret, _ := last.Instrs[len(last.Instrs)-1].(*ssa.Return)
+			if ret == nil || len(ret.Results) != 1 {
+				return false
+			}
+			fs := hp.facts
+			v := hp.resolve(ret.Results[0])
+			if cb, isConst := constBool(v); isConst {
+				if cb != f.Pol {
+					continue
+				}
+			} else {
+				vf := p.mkFact(v, f.Pol)
+				contradicted := false
+				for _, g := range fs {
+					if g.key[2:] == vf.key[2:] && g.Pol != vf.Pol {
+						contradicted = true
+					}
+				}
+				if contradicted {
+					continue
+				}
+				fs = append(append([]Fact{}, fs...), vf)
+			}
+			n++
+			ok := false
+			for _, g := range fs {
+				if isMismatchAt(g, inner, depth+1) {
+					ok = true
+				}
+			}
+			if !ok {
+				return false
+			}
+		}
+		return n > 0
+	}
+	isMismatch := func(f Fact) bool { return isMismatchAt(f, nil, 0) }
 	paths, complete := p.c18PathsAvoiding(L, add.Block())
 	if !complete {
 		o.Unknown("the body of the loop over the owners has too many paths to classify the skipped owners")
@@ -641,56 +717,231 @@ func (p *Program) c18PathsAvoiding(L *Loop, avoid *ssa.BasicBlock) (paths [][]*s
 // resolved to the value it received on this path; feasible=false when a constant phi input
 // contradicts the branch taken.
 func (p *Program) c18PathFacts(path []*ssa.BasicBlock) (fs []Fact, feasible bool) {
-	pos := map[*ssa.BasicBlock]int{}
-	for i, b := range path {
-		if _, dup := pos[b]; !dup {
-			pos[b] = i
+	pi := p.c18PathInfo(path)
+	if pi == nil {
+		return nil, false
+	}
+	return pi.facts, true
+}
+
+// c18Path: one concrete control-flow path with what is known on it. Values that merge at a block of
+// the path (phis: the results of a helper whose body was merged into its caller, booleans that
+// materialise a guard) are resolved to the value they receive over the edge the path takes.
+type c18Path struct {
+	p      *Program
+	blocks []*ssa.BasicBlock
+	pos    map[*ssa.BasicBlock]int
+	facts  []Fact
+	nilOf  map[ssa.Value]bool // nil tests of phis, resolved to the incoming value: value → is nil
+}
+
+// resolve follows phis of blocks on the path to the value flowing in on this path.
+func (pi *c18Path) resolve(v ssa.Value) ssa.Value {
+	for n := 0; n < 8 && v != nil; n++ {
+		ph, isPhi := stripConv(v).(*ssa.Phi)
+		if !isPhi {
+			if u, isU := v.(*ssa.UnOp); isU && u.Op == token.MUL {
+				if src, ok := pi.p.loadSource(u); ok {
+					v = src
+					continue
+				}
+			}
+			return v
 		}
+		k, on := pi.pos[ph.Block()]
+		if !on || k == 0 {
+			return v
+		}
+		var in ssa.Value
+		for j, pr := range ph.Block().Preds {
+			if pr == pi.blocks[k-1] && j < len(ph.Edges) {
+				in = ph.Edges[j]
+			}
+		}
+		if in == nil {
+			return v
+		}
+		v = in
+	}
+	return v
+}
+
+// nilness of an error value on this path: yesTri = nil, noTri = non-nil.
+func (pi *c18Path) nilness(v ssa.Value) tri {
+	v = pi.resolve(v)
+	if v == nil {
+		return unknownTri
+	}
+	if isNilConst(stripConv(v)) {
+		return yesTri
+	}
+	if definitelyNonNil(v) {
+		return noTri
+	}
+	if isNil, ok := pi.nilOf[stripConv(v)]; ok {
+		if isNil {
+			return yesTri
+		}
+		return noTri
+	}
+	return pi.p.nilnessFromFacts(pi.facts, v)
+}
+
+// errOfCall: nilness of the error result of call c on this path.
+func (pi *c18Path) errOfCall(c *ssa.Call) tri {
+	res := c.Common().Signature().Results()
+	for v, isNil := range pi.nilOf {
+		if cc, idx := asCall(v); cc == c && (idx == res.Len()-1 || idx == -1 && res.Len() == 1) {
+			if isNil {
+				return yesTri
+			}
+			return noTri
+		}
+	}
+	return pi.p.errOfCall(pi.facts, c)
+}
+
+func (p *Program) c18PathInfo(path []*ssa.BasicBlock) *c18Path {
+	pi := &c18Path{p: p, blocks: path, pos: map[*ssa.BasicBlock]int{}, nilOf: map[ssa.Value]bool{}}
+	for i, b := range path {
+		if _, dup := pi.pos[b]; !dup {
+			pi.pos[b] = i
+		}
+	}
+	// the value a phi of a block on the path (position 1..i) receives
+	incoming := func(ph *ssa.Phi, i int) ssa.Value {
+		k, on := pi.pos[ph.Block()]
+		if !on || k == 0 || k > i {
+			return nil
+		}
+		for j, pr := range ph.Block().Preds {
+			if pr == path[k-1] && j < len(ph.Edges) {
+				return ph.Edges[j]
+			}
+		}
+		return nil
 	}
 	for i := 0; i+1 < len(path); i++ {
 		for _, f := range p.edgeFacts(path[i], path[i+1]) {
 			for n := 0; n < 8; n++ {
-				ph, isPhi := f.Cond.(*ssa.Phi)
-				if !isPhi {
-					break
-				}
-				k, on := pos[ph.Block()]
-				if !on || k == 0 || k > i {
-					break
-				}
-				var in ssa.Value
-				for j, pr := range ph.Block().Preds {
-					if pr == path[k-1] && j < len(ph.Edges) {
-						in = ph.Edges[j]
+				if ph, isPhi := f.Cond.(*ssa.Phi); isPhi {
+					in := incoming(ph, i)
+					if in == nil {
+						break
 					}
-				}
-				if in == nil {
-					break
-				}
-				if cb, isC := constBool(in); isC {
-					if cb != f.Pol {
-						return nil, false
+					if cb, isC := constBool(in); isC {
+						if cb != f.Pol {
+							return nil
+						}
+						f = Fact{}
+						break
 					}
-					f = Fact{}
+					f = p.mkFact(in, f.Pol)
+					continue
+				}
+				// nil test of a merged value
+				x, trueMeansNonNil, isNilTest := errNilTest(f.Cond)
+				if !isNilTest {
 					break
 				}
-				f = p.mkFact(in, f.Pol)
+				isNil := f.Pol != trueMeansNonNil
+				cur := stripConv(x)
+				resolved := false
+				for m := 0; m < 8; m++ {
+					ph, isPhi := cur.(*ssa.Phi)
+					if !isPhi {
+						break
+					}
+					in := incoming(ph, i)
+					if in == nil {
+						break
+					}
+					cur = stripConv(in)
+					resolved = true
+				}
+				if !resolved {
+					break
+				}
+				switch {
+				case isNilConst(cur):
+					if !isNil {
+						return nil
+					}
+				case definitelyNonNil(cur):
+					if isNil {
+						return nil
+					}
+				default:
+					if prev, known := pi.nilOf[cur]; known && prev != isNil {
+						return nil
+					}
+					pi.nilOf[cur] = isNil
+				}
+				f = Fact{}
+				break
 			}
 			if f.Cond != nil {
-				fs = append(fs, f)
+				pi.facts = append(pi.facts, f)
 			}
 		}
 	}
 	// contradictory facts make the path infeasible
 	seen := map[string]bool{}
-	for _, f := range fs {
+	for _, f := range pi.facts {
 		k := p.key(f.Cond)
 		if v, ok := seen[k]; ok && v != f.Pol {
-			return nil, false
+			return nil
 		}
 		seen[k] = f.Pol
 	}
-	return fs, true
+	for v, isNil := range pi.nilOf {
+		switch p.nilnessFromFacts(pi.facts, v) {
+		case yesTri:
+			if !isNil {
+				return nil
+			}
+		case noTri:
+			if isNil {
+				return nil
+			}
+		}
+	}
+	return pi
+}
+
+// c18ReturnPaths enumerates the feasible acyclic paths from the entry of fn to its normal returns.
+// complete=false when fn has loops or too many paths (the caller must not conclude anything then).
+func (p *Program) c18ReturnPaths(fn *ssa.Function) (paths []*c18Path, complete bool) {
+	if len(fn.Blocks) == 0 || len(loopsOf(fn)) > 0 {
+		return nil, false
+	}
+	complete = true
+	n := 0
+	var walk func(path []*ssa.BasicBlock)
+	walk = func(path []*ssa.BasicBlock) {
+		if !complete {
+			return
+		}
+		b := path[len(path)-1]
+		if len(b.Instrs) > 0 {
+			if _, isRet := b.Instrs[len(b.Instrs)-1].(*ssa.Return); isRet {
+				n++
+				if n > 4096 {
+					complete = false
+					return
+				}
+				if pi := p.c18PathInfo(append([]*ssa.BasicBlock{}, path...)); pi != nil {
+					paths = append(paths, pi)
+				}
+				return
+			}
+		}
+		for _, s := range b.Succs {
+			walk(append(append([]*ssa.BasicBlock{}, path...), s))
+		}
+	}
+	walk([]*ssa.BasicBlock{fn.Blocks[0]})
+	return paths, complete
 }
 
 // c18bind maps the parameters of an extracted helper to the arguments of the call under inspection.
@@ -739,53 +990,52 @@ func c18Retry(c *Ctx) {
 	// (i) a source read may report "not found, no error" only for NotFound ∧ Optional
 	n := 0
 	for _, fn := range p.FuncsIn(pkgObjTemplate) {
-		res := fn.Signature.Results()
-		if res.Len() != 2 || res.At(0).Type().String() != "bool" || !pfIsErrorType(res.At(1).Type()) {
-			continue
-		}
-		var get *ssa.Call
-		for _, cc := range callsIn(fn) {
-			if isReaderGet(cc.Common) {
-				get, _ = cc.Instr.(*ssa.Call)
-			}
-		}
-		if get == nil {
+		if !c18IsLookupFunc(fn) {
 			continue
 		}
 		n++
-		o := c.Ob(fn, "missing-source", get, "a source lookup reports 'absent without error' only when the read returned NotFound and the source is marked Optional; found=true only under err==nil")
+		gets := c18DynamicGets(fn)
+		o := c.Ob(fn, "missing-source", gets[len(gets)-1], "a source lookup reports 'absent without error' only when the read returned NotFound and the source is marked Optional; found=true only under err==nil")
+		verdicts, complete := p.c18LookupVerdicts(fn)
+		if !complete {
+			o.Unknown("the lookup has loops or too many paths to classify its verdicts")
+			continue
+		}
 		var problems []string
-		for _, rc := range p.returnCases(fn) {
-			if !p.pfErrMayBeNil(rc.Facts, rc.Results[1]) {
-				continue
+		for _, v := range verdicts {
+			if v.errNil == noTri {
+				continue // an error return
 			}
-			b, isConst := constBool(rc.Results[0])
-			if !isConst {
-				problems = append(problems, "unrecognised found result at "+p.IPos(rc.Ret))
-				continue
-			}
-			if b {
-				if !p.errOfCallIsNil(rc.Facts, get) {
-					problems = append(problems, "found=true at "+p.IPos(rc.Ret)+" without err==nil of the read")
+			at := p.IPos(v.ret)
+			b, isConst := constBool(v.found)
+			switch {
+			case v.deleg != nil:
+				// the verdict of a nested lookup (judged there) is passed on
+				dFound := c11ExtractOf(v.deleg, v.deleg.Common().Signature().Results().Len()-2)
+				switch {
+				case v.path.errOfCall(v.deleg) != yesTri:
+					problems = append(problems, "verdict at "+at+" without err==nil of the nested lookup "+calleeName(v.deleg.Common()))
+				case dFound != nil && stripConv(v.found) == ssa.Value(dFound):
+				case isConst && dFound != nil && p.boolFromFacts(v.path.facts, dFound) == boolTri(b):
+				default:
+					problems = append(problems, "the found result at "+at+" is not the verdict of the nested lookup "+calleeName(v.deleg.Common()))
 				}
-				continue
-			}
-			_, nf := p.findFactCall(rc.Facts, true, []string{pkgAPIErr + ".IsNotFound"}, func(cc *ssa.CallCommon) bool {
-				return len(cc.Args) == 1 && stripConv(cc.Args[0]) == ssa.Value(get)
-			})
-			opt := false
-			for _, f := range rc.Facts {
-				if u, isU := f.Cond.(*ssa.UnOp); isU && u.Op == token.MUL && f.Pol {
-					if fa, isFA := u.X.(*ssa.FieldAddr); isFA && fieldName(fa.X.Type(), fa.Field) == "Optional" && namedTypeString(fa.X.Type()) == pkgCoreV1+".ObjectTemplateSource" {
-						opt = true
-					}
+			case !isConst:
+				problems = append(problems, "unrecognised found result at "+at)
+			case v.get == nil:
+				problems = append(problems, fmt.Sprintf("found=%v at %s is reported without a read", b, at))
+			case b:
+				if v.path.errOfCall(v.get) != yesTri {
+					problems = append(problems, "found=true at "+at+" without err==nil of the read")
 				}
-			}
-			if !nf || !opt {
-				problems = append(problems, fmt.Sprintf("absent-without-error return at %s is not restricted to NotFound(%v) ∧ src.Optional(%v)", p.IPos(rc.Ret), nf, opt))
+			default:
+				nf, opt := v.notFound, v.optional
+				if !nf || !opt {
+					problems = append(problems, fmt.Sprintf("absent-without-error return at %s is not restricted to NotFound(%v) ∧ src.Optional(%v)", at, nf, opt))
+				}
 			}
 		}
-		c11Conclude(o, problems, nil, nil)
+		c11Conclude(o, uniqStrings(problems), nil, nil)
 	}
 	if n == 0 {
 		c.AnchorLost("a (found bool, err error) source lookup in the ObjectTemplate controller")
@@ -884,7 +1134,7 @@ func (p *Program) c18CollectorReportsAbsent(fn *ssa.Function) (problems []string
 	// every error-free return's bool result: phi whose incoming value along the absent path is true.
 	L := innermostLoop(fn, look.Block())
 	for _, rc := range p.returnCases(fn) {
-		if !p.pfErrMayBeNil(rc.Facts, rc.Results[1]) {
+		if !p.c18ErrMayBeNil(rc.Facts, rc.Results[1]) {
 			continue
 		}
 		v := rc.Results[0]
@@ -1207,48 +1457,57 @@ func c18r4(c *Ctx) {
 			c11Conclude(o, problems, nil, nil)
 		}
 	}
-	// missing required source → *SourceError (returns of (bool, error) lookups under NotFound ∧ !Optional)
+	// missing required source → *SourceError (error verdicts of source lookups whose read reported NotFound)
+	nreq := 0
 	for _, fn := range p.FuncsIn(pkgObjTemplate) {
-		res := fn.Signature.Results()
-		if res.Len() != 2 || res.At(0).Type().String() != "bool" || !pfIsErrorType(res.At(1).Type()) {
+		if !c18IsLookupFunc(fn) {
 			continue
 		}
-		var get *ssa.Call
-		for _, cc := range callsIn(fn) {
-			if isReaderGet(cc.Common) {
-				get, _ = cc.Instr.(*ssa.Call)
+		verdicts, complete := p.c18LookupVerdicts(fn)
+		relevant := !complete
+		for _, v := range verdicts {
+			if v.get != nil && v.deleg == nil && v.notFound {
+				relevant = true
 			}
 		}
-		if get == nil {
+		if !relevant {
+			continue // the lookup only passes on the verdict of a nested lookup
+		}
+		nreq++
+		gets := c18DynamicGets(fn)
+		o := c.Ob(fn, "missing-required-is-SourceError", gets[len(gets)-1], "a NotFound source that is not Optional is returned as *SourceError carrying the NotFound error")
+		if !complete {
+			o.Unknown("the lookup has loops or too many paths to classify its verdicts")
 			continue
 		}
-		o := c.Ob(fn, "missing-required-is-SourceError", get, "a NotFound source that is not Optional is returned as *SourceError carrying the NotFound error")
 		n := 0
 		var problems []string
-		for _, rc := range p.returnCases(fn) {
-			if _, nf := p.findFactCall(rc.Facts, true, []string{pkgAPIErr + ".IsNotFound"}, nil); !nf {
+		for _, v := range verdicts {
+			if v.get == nil || v.deleg != nil || !v.notFound {
 				continue
 			}
-			if !p.pfErrMayBeNil(rc.Facts, rc.Results[1]) || true {
-				a, isA := stripConv(rc.Results[1]).(*ssa.Alloc)
-				if isNilConst(rc.Results[1]) {
-					continue // the optional case (checked by C18.R1)
-				}
-				n++
-				if !isA || !isErrType(a.Type(), "SourceError") {
-					problems = append(problems, "NotFound return at "+p.IPos(rc.Ret)+" is not a *SourceError")
-					continue
-				}
-				f, _, _ := compositeFields(a)
-				if f["Err"] == nil || stripConv(f["Err"]) != ssa.Value(get) {
-					problems = append(problems, "the SourceError does not carry the NotFound error of the read (needed for the missing-resource requeue)")
-				}
+			ev := v.err
+			if ev == nil || isNilConst(stripConv(ev)) {
+				continue // the optional case (checked by C18.R1)
+			}
+			n++
+			a, isA := stripConv(ev).(*ssa.Alloc)
+			if !isA || !isErrType(a.Type(), "SourceError") {
+				problems = append(problems, "NotFound return at "+p.IPos(v.ret)+" is not a *SourceError")
+				continue
+			}
+			f, _, _ := compositeFields(a)
+			if f["Err"] == nil || stripConv(v.path.resolve(f["Err"])) != ssa.Value(v.get) {
+				problems = append(problems, "the SourceError does not carry the NotFound error of the read (needed for the missing-resource requeue)")
 			}
 		}
 		if n == 0 {
 			problems = append(problems, "no error return under IsNotFound")
 		}
-		c11Conclude(o, problems, nil, nil)
+		c11Conclude(o, uniqStrings(problems), nil, nil)
+	}
+	if nreq == 0 {
+		c.AnchorLost("a source lookup that classifies a NotFound read in the ObjectTemplate controller")
 	}
 	// template parse / execute failures → *TemplateError
 	nt := 0
@@ -1545,4 +1804,224 @@ func c18r5(c *Ctx) {
 		problems = append(problems, "no finalizer removal found after Free")
 	}
 	c11Conclude(o, problems, nil, nil)
+}
+
+// c18ErrMayBeNil: pfErrMayBeNil, except that a nil test of the returned value itself is honoured
+// first. The error of a helper whose body was merged into its caller is a phi of the helper's error
+// values and nil; under `if err != nil { return err }` that phi is not nil although one of the values
+// that may flow into it is the nil constant.
+func (p *Program) c18ErrMayBeNil(fs []Fact, v ssa.Value) bool {
+	if v != nil && p.nilnessFromFacts(fs, v) == noTri {
+		return false
+	}
+	return p.pfErrMayBeNil(fs, v)
+}
+
+// ---------------------------------------------------------------------------------------------
+// Source lookups: functions of the ObjectTemplate controller that read a dynamic object and report
+// (…, found bool, err error). Selected by result types and by what they do, so that a lookup whose
+// body was merged into its caller (the caller then returns (obj, found, err)) is still one.
+
+func c18DynamicGets(fn *ssa.Function) []*ssa.Call {
+	var out []*ssa.Call
+	for _, cc := range callsIn(fn) {
+		call, isCall := cc.Instr.(*ssa.Call)
+		if !isCall || !isReaderGet(cc.Common) {
+			continue
+		}
+		if a := callArgs(cc.Common); len(a) >= 3 && classifyObjectArg(a[2]) == "typed" {
+			continue
+		}
+		out = append(out, call)
+	}
+	return out
+}
+
+func c18IsLookupFunc(fn *ssa.Function) bool {
+	if fn == nil || fn.Blocks == nil {
+		return false
+	}
+	res := fn.Signature.Results()
+	n := res.Len()
+	if n < 2 || res.At(n-2).Type().String() != "bool" || !pfIsErrorType(res.At(n-1).Type()) {
+		return false
+	}
+	return len(c18DynamicGets(fn)) > 0
+}
+
+func boolTri(b bool) tri {
+	if b {
+		return yesTri
+	}
+	return noTri
+}
+
+// c18Verdict: one feasible path of a lookup to a return, with the (found, err) it reports and the
+// read that decided it: the last read executed on the path (get), or the last nested lookup called
+// on it (deleg) when that came later.
+type c18Verdict struct {
+	path     *c18Path
+	ret      *ssa.Return
+	found    ssa.Value // resolved on the path
+	err      ssa.Value // resolved on the path
+	errNil   tri
+	get      *ssa.Call
+	deleg    *ssa.Call
+	notFound bool // IsNotFound(<error of get>) is known true on the path
+	optional bool // <ObjectTemplateSource>.Optional is known true on the path
+}
+
+func (p *Program) c18LookupVerdicts(fn *ssa.Function) ([]c18Verdict, bool) {
+	paths, complete := p.c18ReturnPaths(fn)
+	if !complete {
+		return nil, false
+	}
+	isGet := map[ssa.Instruction]bool{}
+	for _, g := range c18DynamicGets(fn) {
+		isGet[g] = true
+	}
+	nres := fn.Signature.Results().Len()
+	var out []c18Verdict
+	for _, pi := range paths {
+		last := pi.blocks[len(pi.blocks)-1]
+		ret, _ := last.Instrs[len(last.Instrs)-1].(*ssa.Return)
+		if ret == nil || len(ret.Results) != nres || (fn.Recover != nil && last == fn.Recover) {
+			continue
+		}
+		v := c18Verdict{path: pi, ret: ret, found: pi.resolve(ret.Results[nres-2]), err: pi.resolve(ret.Results[nres-1])}
+		v.errNil = pi.nilness(v.err)
+		for _, b := range pi.blocks {
+			for _, in := range b.Instrs {
+				call, isCall := in.(*ssa.Call)
+				if !isCall {
+					continue
+				}
+				if isGet[in] {
+					v.get, v.deleg = call, nil
+					continue
+				}
+				if callee := staticCallee(call.Common()); callee != nil && callee != fn && funcPkgPath(callee) == funcPkgPath(fn) && c18IsLookupFunc(callee) {
+					v.deleg = call
+				}
+			}
+		}
+		if v.get != nil {
+			_, v.notFound = p.findFactCall(pi.facts, true, []string{pkgAPIErr + ".IsNotFound"}, func(cc *ssa.CallCommon) bool {
+				return len(cc.Args) == 1 && stripConv(pi.resolve(cc.Args[0])) == ssa.Value(v.get)
+			})
+		}
+		for _, f := range pi.facts {
+			if u, isU := f.Cond.(*ssa.UnOp); isU && u.Op == token.MUL && f.Pol {
+				if fa, isFA := u.X.(*ssa.FieldAddr); isFA && fieldName(fa.X.Type(), fa.Field) == "Optional" && namedTypeString(fa.X.Type()) == pkgCoreV1+".ObjectTemplateSource" {
+					v.optional = true
+				}
+			}
+		}
+		out = append(out, v)
+	}
+	return out, true
+}
+
+// c18WriteGuardAllowed: allowedWriteGuard for the ObjectTemplate writes, seeing through guards that
+// were materialised in a boolean variable. A boolean phi carries exactly the information of the
+// branch conditions that select its incoming edge (those between the immediate dominator of the
+// merge and the merge) and of its non-constant incoming values; it is an allowed guard when all of
+// these are. This is the `found` result of a lookup whose body was merged into its caller: the phi of
+// the constants the lookup returned, selected by its error / NotFound / Optional tests. A plain
+// boolean field of a struct (a spec flag such as src.Optional) is not a comparison with the existing
+// object either (accepted only behind such a phi).
+func (p *Program) c18WriteGuardAllowed(f Fact, depth int) bool {
+	if allowedWriteGuard(p, f) {
+		return true
+	}
+	if depth > 3 {
+		return false
+	}
+	switch x := f.Cond.(type) {
+	case *ssa.UnOp:
+		// only as one of the conditions behind a materialised guard (what a helper returning the
+		// boolean used to hide from this rule), not as the guard of the write itself
+		if x.Op == token.MUL && depth > 0 {
+			if _, ok := x.X.(*ssa.FieldAddr); ok {
+				if b, isBasic := x.Type().Underlying().(*types.Basic); isBasic && b.Info()&types.IsBoolean != 0 {
+					return true
+				}
+			}
+		}
+	case *ssa.Phi:
+		if b, isBasic := x.Type().Underlying().(*types.Basic); !isBasic || b.Info()&types.IsBoolean == 0 {
+			return false
+		}
+		merge := x.Block()
+		idom := merge.Idom()
+		if idom == nil {
+			return false
+		}
+		for _, e := range x.Edges {
+			if _, isConst := constBool(e); isConst {
+				continue
+			}
+			if !p.c18WriteGuardAllowed(p.mkFact(e, true), depth+1) {
+				return false
+			}
+		}
+		// blocks on the way from the immediate dominator to the merge
+		region := map[*ssa.BasicBlock]bool{}
+		work := append([]*ssa.BasicBlock{}, merge.Preds...)
+		for len(work) > 0 {
+			b := work[len(work)-1]
+			work = work[:len(work)-1]
+			if region[b] || b == merge {
+				continue
+			}
+			region[b] = true
+			if b != idom {
+				work = append(work, b.Preds...)
+			}
+		}
+		for b := range region {
+			if !idom.Dominates(b) {
+				return false
+			}
+			if iff, ok := b.Instrs[len(b.Instrs)-1].(*ssa.If); ok {
+				if !p.c18WriteGuardAllowed(p.mkFact(iff.Cond, true), depth+1) {
+					return false
+				}
+			}
+		}
+		return true
+	}
+	return false
+}
+
+// c18ErrCheckedBefore: every feasible path from call q to `site` takes an edge on which the error of
+// q is known to be nil (a nil test of that error, or of a value it was merged into). Branch
+// combinations that cannot occur are not walked (feasibleSuccs).
+func (p *Program) c18ErrCheckedBefore(q *ssa.Call, site ssa.Instruction) bool {
+	sb := q.Block()
+	if site.Block() == sb && instrIndex(site) > instrIndex(q) {
+		return false
+	}
+	type edge struct{ from, to *ssa.BasicBlock }
+	cut := func(e edge) bool { return p.errOfCallIsNil(p.FactsOnEdge(e.from, e.to), q) }
+	seen := map[edge]bool{}
+	var work []edge
+	for _, s := range sb.Succs {
+		work = append(work, edge{sb, s})
+	}
+	for len(work) > 0 {
+		e := work[len(work)-1]
+		work = work[:len(work)-1]
+		if seen[e] || cut(e) {
+			continue
+		}
+		seen[e] = true
+		if e.to == site.Block() {
+			return false
+		}
+		for _, s := range p.feasibleSuccs(e.from, e.to) {
+			work = append(work, edge{e.to, s})
+		}
+	}
+	return true
 }
